@@ -560,14 +560,12 @@ class ModelBuilder:
                 if key in st.claims:
                     raise RuntimeError('same file twice')
                 hint['used'] = True
-                if mb.T_pre.is_dir(path) and any(
-                        n[0] == 'f' and q.startswith(path + '/')
-                        for q, n in mb.T_pre.nodes.items()):
-                    # the target is a stale directory that still holds files:
-                    # making room for it moves them aside one by one, and the
-                    # injected error may have struck after some were moved -
-                    # which ones is not modelled
-                    raise Invalid('injected failure while making room')
+                # previous outputs that the call had physically moved aside
+                # (making room, or replacing a stale output file by a
+                # directory) before the injected error struck no longer match
+                # their records
+                for q in hint.get('moved', ()):
+                    st.disturbed.add(q)
                 raise hint['cls']('injected')
             made = mb._setup_file(st, path, physical=True)
         except Invalid:
